@@ -318,6 +318,8 @@ class Types:
                         if c.func.is_generator and rt[0] != "list":
                             rt = ("list", ANY)
                         outs.append(rt)
+                elif c.ext is not None and c.ext.endswith(".__init__") and c.recv is not None and c.recv[0] == "cls":
+                    outs.append(c.recv)  # class without an explicit constructor
                 elif c.ext is not None:
                     outs.append(self._ext_call_type(c, e, func, module))
                 else:
